@@ -114,6 +114,8 @@ def as_torch_error(msg):
 
 def dispatch(e, func, args, kwargs):
     if func in RANDOM:
+        # record which generator every random draw is taken from (dataflow fact used by reproducibility obligations)
+        e.rng_calls.append((str(func), bind(func, args, kwargs).get("generator")))
         return RANDOM[func](e, func, args, kwargs)
     ts = _tensors(list(args) + list(kwargs.values()), [])
     if not any(e.is_symbolic(t) for t in ts):
